@@ -20,6 +20,21 @@ fn q_op_clear() { body_clear(state_q3()); }
 #[kani::unwind(6)]
 fn t_op_clear() { body_clear(state_t(3)); }
 
+// ---- get_lru / peek_lru / peek_mru: pure pointer operations on the two ends, for every length 0..3 (singleton!) ----
+#[kani::proof]
+#[kani::unwind(6)]
+fn q_op_ends() {
+    let mut c = state_q3();
+    let o = order(&c);
+    let size_before = c.current_size();
+    match c.peek_lru() { Some((k, v)) => assert!(o.1 > 0 && *k == o.0[0] && v.0 == 8 + *k as usize), None => assert!(o.1 == 0) }
+    match c.peek_mru() { Some((k, v)) => assert!(o.1 > 0 && *k == o.0[o.1 - 1] && v.0 == 8 + *k as usize), None => assert!(o.1 == 0) }
+    match c.get_lru() { Some((k, v)) => assert!(o.1 > 0 && *k == o.0[0] && v.0 == 8 + *k as usize), None => assert!(o.1 == 0) }
+    coherent(&c);
+    if o.1 > 0 { assert!(order(&c) == promoted(o, 0), "get_lru did not move the least-recently-used entry to the front"); } else { assert!(order(&c) == o); }
+    assert!(c.current_size() == size_before);
+}
+
 // ---- retain: predicate called once per entry in LRU order with the real key/value; exactly the
 //      rejected entries leave; survivors keep their relative order; sizes follow (C15) ---------------
 fn body_retain(mut c: LruCache<u8, SV, BH>) {
